@@ -6,7 +6,7 @@ from inspect import getfullargspec
 import numpy as np
 
 from glue.core.contracts import contract, ContractsMeta
-from glue.core.coordinate_helpers import (dependent_axes, default_world_coords,
+from glue.core.coordinate_helpers import (dependent_axes, dependent_input_axes, default_world_coords,
                                           pixel2world_single_axis,
                                           world2pixel_single_axis)
 from glue.core.subset import InequalitySubsetState
@@ -365,7 +365,7 @@ class CoordinateComponentLink(ComponentLink):
         # to compute a given world coord, and vice versa
         # (e.g., spectral data cubes)
         self.ndim = len(comp_from)
-        self.from_needed = dependent_axes(coords, index)
+        self.from_needed = dependent_input_axes(coords, index, pixel2world=pixel2world)
         self._from_all = comp_from
 
         comp_from = [comp_from[i] for i in self.from_needed]
